@@ -30,7 +30,7 @@ RangeEnds == {<<"0">>, <<"1">>, <<"2">>, <<"5">>, <<"--", "1">>, <<"--", "214748
 AfterSlice == {<<".|">>, <<".", "0">>, <<".", "1">>, <<"~#", "(", "#", "(", "1", "2", ")", ")">>, <<"~#", "(", "#", "\"a\"", ")">>, <<"==", "(", "1", "2", "3", ")">>,
                <<"<", "\"b\"">>, <<"<>", "(", "7", "8", ")">>, <<"._">>, <<"_.">>, <<"<~", "(", "0", "..", "1", ")">>, <<".", ":a">>}
 VARIABLES toks, tag
-NoTag == [k |-> "other", lo |-> <<>>, f |-> <<>>]
+NoTag == [k |-> "other", lo |-> <<>>, hi |-> <<>>, f |-> <<>>]
 Init == \/ \E a \in Lits, b \in Lits, op \in BinOps : toks = a \o <<op>> \o b /\ tag = NoTag
         \/ \E a \in Lits, op \in PreOps : toks = <<op>> \o a /\ tag = NoTag
         \/ \E a \in Lits, op \in SufOps : toks = a \o <<op>> /\ tag = NoTag
@@ -38,7 +38,7 @@ Init == \/ \E a \in Lits, b \in Lits, op \in BinOps : toks = a \o <<op>> \o b /\
         \/ \E sq \in Seqs \cup Texts, lo \in RangeEnds, hi \in RangeEnds, f \in AfterSlice :
               /\ toks = IF f[1] = "_." THEN <<"_.", "(">> \o sq \o <<"<~", "(">> \o lo \o <<"..">> \o hi \o <<")", ")">>
                         ELSE <<"(">> \o sq \o <<"<~", "(">> \o lo \o <<"..">> \o hi \o <<")", ")">> \o f
-              /\ tag = [k |-> "slice", lo |-> lo, f |-> f]
+              /\ tag = [k |-> "slice", lo |-> lo, hi |-> hi, f |-> f]
 Next == UNCHANGED <<toks, tag>>
 Spec == Init /\ [][Next]_<<toks, tag>>
 Emit == PrintT(<<"REPLAY", ToJson([toks |-> toks, tag |-> tag])>>)
